@@ -600,6 +600,27 @@ def r03_15(run, model):
     run.floor("operator arms of the typer", n, 3)
 
 
+def r03_16(run, model):
+    run.rule("R03.16", "every type the user writes inside a body is validated like the types of a signature: wherever the expression checker "
+                       "converts an annotation (`Ty::from_hir` in typer/check.rs) the same function hands the result to validate_ty (unknown "
+                       "type names, wrong number of type arguments, unknown traits behind dyn)")
+    CHECK = "crates/compiler/src/typer/check.rs"
+    n = 0
+    for f in model.fns(CHECK):
+        if f.body is None:
+            continue
+        convs = [c for c in S.walk(f.body) if c["k"] == "Call" and (c["func"].get("segs") or [])[-2:] == ["Ty", "from_hir"]]
+        if not convs:
+            continue
+        validates = any(True for _ in S.calls(f.body, "validate_ty"))
+        for c in convs:
+            n += 1
+            run.ob("R03.16", f"{f.name}|annotation #{n} is validated", validates, site(CHECK, c["sp"]),
+                   "validate_ty is applied in the converting function" if validates else "the converted annotation is never validated",
+                   witness="let v: Vec[Nope] = vec_new(); is accepted and emits []Nope; let m: Maybe[Maybe[int32, int32]] = None; panics in mono")
+    run.floor("annotation conversions in the expression checker", n, 1)
+
+
 def strip_callee(c):
     return re.sub(r"<[^<>]*>", "", c).split("::")[-1]
 
@@ -618,6 +639,9 @@ def run(run, model):
     run.try_rule(r03_13, model)
     run.try_rule(r03_14, model)
     run.try_rule(r03_15, model)
+    run.try_rule(r03_16, model)
+    from rules import c17
+    run.try_rule(c17.r17_9, model)
     run.try_rule(c07.r07_4, model)
     run.try_rule(c07.r07_2, model, None, "C03")
     from rules import c08
